@@ -25,6 +25,7 @@ def squeeze(t, dim=None):
         dim = np.where([s == 1 for s in t.shape])[0]
     if not hasattr(dim, "__len__"):
         dim = [dim]
+    dim = list(dim)  # A tuple would index several axes of the shape array at once
 
     assert np.all(np.array(t.shape)[dim] == 1)
 
